@@ -14,3 +14,4 @@ import Solvor.Flow.Theorems
 #print axioms Solvor.Flow.Inst.certify_sound
 #print axioms Solvor.Flow.ssp_sound
 #print axioms Solvor.Flow.ssp_sound_transshipment
+#print axioms Solvor.Flow.ssp_certifies_partial
